@@ -15,6 +15,11 @@
 // along with this program.  If not, see <http://www.gnu.org/licenses/>.
 use anyhow::Result;
 
+#[cfg(melda_verif_sched)]
+use crate::verif_sched::{Arc, RwLock};
+#[cfg(melda_verif_sched)]
+use std::any::Any;
+#[cfg(not(melda_verif_sched))]
 use std::{
     any::Any,
     sync::{Arc, RwLock},
